@@ -261,6 +261,10 @@ func operatorTag(w *World) func(ssa.Value) bool {
 	}
 }
 
+// newOps: operators declared by the tree that the property does not know (set by ruleMetaOps; rows made only of them are
+// reported, not claimed).
+var newOps = valSet{}
+
 // ruleMetaOps: operator coverage and dispatch tables, by finite-domain reachability over the 11 declared operators.
 func ruleMetaOps(r *Run, rule string, k *metaKind) {
 	w := r.W
@@ -270,8 +274,26 @@ func ruleMetaOps(r *Run, rule string, k *metaKind) {
 	got := sortedKeys(ops)
 	ws := append([]string(nil), want...)
 	sort.Strings(ws)
-	r.Check(strings.Join(got, ",") == strings.Join(ws, ","), rule, "ops:declared", "-", "11 declared operators: "+strings.Join(got, ","), "declared operators are "+strings.Join(got, ",")+", expected "+strings.Join(ws, ","))
+	// the eleven operators the property speaks of must be declared; an operator added since is outside the claim
+	var missingOps, extraOps []string
+	gotSet := setOf(got...)
+	for _, o := range ws {
+		if !gotSet[o] {
+			missingOps = append(missingOps, o)
+		}
+	}
+	for _, o := range got {
+		if !setOf(ws...)[o] {
+			extraOps = append(extraOps, o)
+		}
+	}
+	r.Check(len(missingOps) == 0, rule, "ops:declared", "-", "the 11 operators of the property are declared: "+strings.Join(ws, ","), "operators no longer declared: "+strings.Join(missingOps, ","))
+	for _, o := range extraOps {
+		r.Note(rule, "ops:declared:extra:"+o, "-", "operator "+o+" was added after the property was written: its semantics are not decided; the known operators are checked with it in the domain")
+	}
+	newOps = setOf(extraOps...)
 	domain := append(append([]string(nil), want...), "")
+	domain = append(domain, extraOps...) // so that they are separate values, not part of "<other>"
 	isTag := operatorTag(w)
 	var evalF, catF, numF *ssa.Function
 	for _, fn := range metaQueryFuncs(w, k) {
@@ -356,6 +378,9 @@ func ruleMetaOps(r *Run, rule string, k *metaKind) {
 		}
 		acc := setOf(sp.accept...)
 		for _, op := range domain {
+			if newOps[op] {
+				continue // an operator the property does not know: not claimed
+			}
 			if !acc[op] && okOps[op] {
 				bad = append(bad, fmt.Sprintf("operator %q is answered by the %s query although it is not a %s operator", op, sp.role, sp.role))
 			}
@@ -475,7 +500,15 @@ func ruleMetaNumericTable(r *Run, rule string, numF *ssa.Function, isTag func(ss
 		for _, row := range rowsT {
 			opv := row.opv
 			opn := opNames[opv]
-			s := row.s
+			s := valSet{}
+			for op := range row.s {
+				if !newOps[op] {
+					s[op] = true
+				}
+			}
+			if len(s) == 0 && len(row.s) > 0 {
+				continue // reached only under operators the property does not know
+			}
 			var ks []string
 			for op := range s {
 				ks = append(ks, op)
@@ -628,6 +661,12 @@ func ruleMetaNot(r *Run, rule string) {
 	r.Analysed("Not")
 	isTag := operatorTag(w)
 	domain := []string{"eq", "ne", "gt", "gte", "lt", "lte", "in", "not_in", "range", "exists", "not_exists"}
+	known := setOf(domain...)
+	for op := range declaredConsts(w, "Operator") {
+		if !known[op] {
+			domain = append(domain, op)
+		}
+	}
 	reach := constReach(fn, isTag, domain)
 	c := NewCanon(w)
 	got := map[string]string{}
@@ -657,6 +696,14 @@ func ruleMetaNot(r *Run, rule string) {
 	}
 	for op, gv := range got {
 		if _, ok := want[op]; !ok {
+			// an operator without a specified complement (range, or one added since) may be paired with an operator
+			// the property does not know, as long as the pairing is an involution
+			if op != otherVal && gv != op && !known[gv] && got[gv] == op {
+				continue
+			}
+			if !known[op] && got[gv] == op {
+				continue
+			}
 			bad = append(bad, fmt.Sprintf("Not maps %q to %q, expected it to be left unchanged", op, gv))
 		}
 	}
@@ -889,6 +936,24 @@ func ruleMetaBSIWidth(r *Run, rule string) {
 	}
 }
 
+// guardedByIsEmpty: in lies on the true side of a dominating roaring IsEmpty() test.
+func guardedByIsEmpty(c *Canon, in ssa.Instruction) bool {
+	for b := in.Block(); b != nil; b = b.Idom() {
+		d := b.Idom()
+		if d == nil {
+			break
+		}
+		iff, ok := d.Instrs[len(d.Instrs)-1].(*ssa.If)
+		if !ok || !(d.Succs[0] == b || d.Succs[0].Dominates(b)) {
+			continue
+		}
+		if strings.HasPrefix(c.S(iff.Cond), roaringBitmap+"IsEmpty(") {
+			return true
+		}
+	}
+	return false
+}
+
 func declaredConstValue(w *World, name string) string {
 	if c, ok := w.Types.Scope().Lookup(name).(*types.Const); ok {
 		s := c.Val().ExactString()
@@ -965,7 +1030,11 @@ func ruleMetaRemoveCovers(r *Run, rule string, k *metaKind) {
 		c2 := NewCanon(w)
 		allInstrs(g, func(in ssa.Instruction) {
 			if call, ok := isBuiltinCall(in, "delete"); ok {
-				if s := c2.S(call.Call.Args[0]); s == "P0.numeric" || s == "P0.categorical" {
+				if s := c2.S(call.Call.Args[0]); s == "P0.categorical" && guardedByIsEmpty(c2, call) {
+					// an emptied "field:value" bitmap may go: every reader treats a missing key as an empty bitmap and
+					// the field's kind is decided by the numeric map alone
+					r.Ok(rule, "remove:prunes-empty-categorical", w.InstrPos(call)+" "+w.Name(g), "only emptied categorical bitmaps are dropped (guarded by IsEmpty)")
+				} else if s == "P0.numeric" || s == "P0.categorical" {
 					r.Bad(rule, "remove:kind-stable:"+s[3:], w.InstrPos(call)+" "+w.Name(g),
 						"Remove deletes an entry of "+s+": the numeric/categorical dispatch of the field (presence of its BSI) changes after removals")
 				}
